@@ -18,6 +18,7 @@ import (
 	"github.com/massnetorg/mass-core/logging"
 	"github.com/sirupsen/logrus"
 	"massnet.org/mass-wallet/masswallet/keystore"
+	"massnet.org/mass-wallet/masswallet/keystore/snacl"
 )
 
 // Fatal is one trapped logging.CPrint(FATAL) → logrus.Exit event.
@@ -129,13 +130,16 @@ func SeedRand(label string) {
 	if origRand == nil {
 		origRand = rand.Reader
 	}
-	rand.Reader = &detRand{label: sha256.Sum256([]byte(label))}
+	r := &detRand{label: sha256.Sum256([]byte(label))}
+	rand.Reader = r
+	snacl.VerifSetPRNG(r)
 }
 
 // RestoreRand puts the system randomness source back.
 func RestoreRand() {
 	if origRand != nil {
 		rand.Reader = origRand
+		snacl.VerifSetPRNG(origRand)
 	}
 }
 
